@@ -1353,3 +1353,166 @@ Proof.
   rewrite !field_bit_skip, !field_bit_here, !b2z_eqb, field_here by exact Hcf.
   eexists. reflexivity.
 Qed.
+
+(* ================= part D: the writers emit the reference layouts ================= *)
+
+Lemma bytes_of_bits_word n x : bytes_of_bits (bits_of (8 + n) x) = ((x / 2 ^ Z.of_nat n) mod 256) :: bytes_of_bits (bits_of n x).
+Proof. rewrite bits_of_split, bytes_of_bits_8 by apply bits_of_length. rewrite Z_of_bits_of_mod. reflexivity. Qed.
+
+Lemma bytes_of_u16 x : bytes_of_items [wu16 x] = be16_bytes x.
+Proof.
+  rewrite chunks_concat by iok. unfold wu16, items_bits. cbn [flat_map item_bits]. rewrite app_nil_r.
+  change 16%nat with (8 + 8)%nat. rewrite bytes_of_bits_word, bytes_of_bits_bits_of_8. reflexivity.
+Qed.
+
+Lemma bytes_of_u32 x : bytes_of_items [wu32 x] = be32_bytes x.
+Proof.
+  rewrite chunks_concat by iok. unfold wu32, items_bits. cbn [flat_map item_bits]. rewrite app_nil_r.
+  change 32%nat with (8 + 24)%nat. rewrite bytes_of_bits_word. change 24%nat with (8 + 16)%nat. rewrite bytes_of_bits_word.
+  change 16%nat with (8 + 8)%nat. rewrite bytes_of_bits_word, bytes_of_bits_bits_of_8. reflexivity.
+Qed.
+
+Lemma bytes_of_items_cons_u16 x l : items_bytes_ok l -> bytes_of_items (wu16 x :: l) = be16_bytes x ++ bytes_of_items l.
+Proof.
+  intros Hl. change (wu16 x :: l) with ([wu16 x] ++ l). rewrite (bytes_of_items_app _ _ 2) by (try (unfold wu16; bl; reflexivity); iok).
+  rewrite bytes_of_u16. reflexivity.
+Qed.
+Lemma bytes_of_items_cons_u32 x l : items_bytes_ok l -> bytes_of_items (wu32 x :: l) = be32_bytes x ++ bytes_of_items l.
+Proof.
+  intros Hl. change (wu32 x :: l) with ([wu32 x] ++ l). rewrite (bytes_of_items_app _ _ 4) by (try (unfold wu32; bl; reflexivity); iok).
+  rewrite bytes_of_u32. reflexivity.
+Qed.
+
+(* two nibbles make a byte *)
+Lemma bytes_of_items_cons_nibbles a b l : items_bytes_ok l -> 0 <= a < 16 -> 0 <= b < 16 ->
+  bytes_of_items (WBits 4 a :: WBits 4 b :: l) = (a * 16 + b) :: bytes_of_items l.
+Proof.
+  intros Hl Ha Hb. change (WBits 4 a :: WBits 4 b :: l) with ([WBits 4 a; WBits 4 b] ++ l).
+  rewrite (bytes_of_items_app _ _ 1) by (try (bl; reflexivity); iok). f_equal.
+  rewrite chunks_concat by iok. unfold items_bits. cbn [flat_map item_bits]. rewrite app_nil_r.
+  rewrite <- (app_nil_r (bits_of 4 a ++ bits_of 4 b)), bytes_of_bits_8 by (rewrite app_length, !bits_of_length; reflexivity).
+  rewrite Z_of_bits_app, bits_of_length, !Z_of_bits_of by (cbn; lia). reflexivity.
+Qed.
+
+(* a 3-byte code goes out as it is *)
+Lemma wbytesn_3 bs : length bs = 3%nat -> wbytesn bs 3 0 = [WBytes bs].
+Proof. intros H. unfold wbytesn. rewrite H. cbn [Nat.eqb Nat.leb]. rewrite <- H, firstn_all. reflexivity. Qed.
+
+Lemma write_stream_identifier v : byte_range (DescriptorStreamIdentifier_ComponentTag v) ->
+  bytes_of_items (enc_stream_identifier v) = ref_stream_identifier v.
+Proof. intros H. unfold enc_stream_identifier, ref_stream_identifier. rewrite bytes_of_items_cons_u8, Z.mod_small by (auto; iok). reflexivity. Qed.
+
+Lemma write_data_stream_alignment v : byte_range (DescriptorDataStreamAlignment_Type v) ->
+  bytes_of_items (enc_data_stream_alignment v) = ref_data_stream_alignment v.
+Proof. intros H. unfold enc_data_stream_alignment, ref_data_stream_alignment. rewrite bytes_of_items_cons_u8, Z.mod_small by (auto; iok). reflexivity. Qed.
+
+Lemma write_registration v : bytes_ok (DescriptorRegistration_AdditionalIdentificationInfo v) ->
+  bytes_of_items (enc_registration v) = ref_registration v.
+Proof. intros H. unfold enc_registration, ref_registration. rewrite bytes_of_items_cons_u32, bytes_of_single_bytes by (auto; iok). reflexivity. Qed.
+
+Lemma write_private_data_indicator v : bytes_of_items (enc_private_data_indicator v) = ref_private_data_indicator v.
+Proof. apply bytes_of_u32. Qed.
+Lemma write_private_data_specifier v : bytes_of_items (enc_private_data_specifier v) = ref_private_data_specifier v.
+Proof. apply bytes_of_u32. Qed.
+
+Lemma write_iso639 v : length (DescriptorISO639LanguageAndAudioType_Language v) = 3%nat ->
+  bytes_ok (DescriptorISO639LanguageAndAudioType_Language v) -> byte_range (DescriptorISO639LanguageAndAudioType_Type v) ->
+  bytes_of_items (enc_iso639 v) = ref_iso639 v.
+Proof.
+  intros H3 Hb Hr. unfold enc_iso639, ref_iso639. rewrite wbytesn_3 by exact H3. cbn [app].
+  rewrite bytes_of_items_cons_bytes, bytes_of_items_cons_u8, Z.mod_small by (auto; iok). reflexivity.
+Qed.
+
+Lemma write_network_name v : bytes_ok (DescriptorNetworkName_Name v) -> bytes_of_items (enc_network_name v) = ref_network_name v.
+Proof. intros H. apply bytes_of_single_bytes. exact H. Qed.
+
+Lemma write_unknown v : bytes_ok (DescriptorUnknown_Content v) -> bytes_of_items (enc_unknown v) = ref_unknown v.
+Proof. intros H. apply bytes_of_single_bytes. exact H. Qed.
+
+Lemma write_service v : byte_range (DescriptorService_Type v) ->
+  bytes_ok (DescriptorService_Provider v) -> bytes_ok (DescriptorService_Name v) ->
+  zlen (DescriptorService_Provider v) < 256 -> zlen (DescriptorService_Name v) < 256 ->
+  bytes_of_items (enc_service v) = ref_service v.
+Proof.
+  intros Hr Hp Hn Hlp Hln. pose proof (zlen_nonneg (DescriptorService_Provider v)). pose proof (zlen_nonneg (DescriptorService_Name v)).
+  unfold enc_service, ref_service, blen. fold (zlen (DescriptorService_Provider v)) (zlen (DescriptorService_Name v)).
+  rewrite !bytes_of_items_cons_u8, bytes_of_items_cons_bytes, bytes_of_items_cons_u8, bytes_of_single_bytes by (auto; iok).
+  rewrite !Z.mod_small by (unfold byte_range in *; lia). reflexivity.
+Qed.
+
+Lemma write_short_event v : length (DescriptorShortEvent_Language v) = 3%nat -> bytes_ok (DescriptorShortEvent_Language v) ->
+  bytes_ok (DescriptorShortEvent_EventName v) -> bytes_ok (DescriptorShortEvent_Text v) ->
+  zlen (DescriptorShortEvent_EventName v) < 256 -> zlen (DescriptorShortEvent_Text v) < 256 ->
+  bytes_of_items (enc_short_event v) = ref_short_event v.
+Proof.
+  intros H3 Hl He Ht Hle Hlt. pose proof (zlen_nonneg (DescriptorShortEvent_EventName v)). pose proof (zlen_nonneg (DescriptorShortEvent_Text v)).
+  unfold enc_short_event, ref_short_event, blen. fold (zlen (DescriptorShortEvent_EventName v)) (zlen (DescriptorShortEvent_Text v)).
+  rewrite wbytesn_3 by exact H3. cbn [app].
+  rewrite bytes_of_items_cons_bytes, bytes_of_items_cons_u8, bytes_of_items_cons_bytes, bytes_of_items_cons_u8, bytes_of_single_bytes by (auto; iok).
+  rewrite !Z.mod_small by lia. reflexivity.
+Qed.
+
+(* list-valued bodies, by induction over the items *)
+Lemma bytes_of_items_flat_map {A} (f : A -> list witem) (g : A -> list Z) (n : A -> Z) (P : A -> Prop) (l : list A) :
+  (forall x, P x -> items_bytes_ok (f x) /\ bitlen (f x) = 8 * n x /\ bytes_of_items (f x) = g x) ->
+  Forall P l -> items_bytes_ok (flat_map f l) /\ bytes_of_items (flat_map f l) = flat_map g l.
+Proof.
+  intros H HF. induction HF as [|x l Hx _ [IHok IH]]; [split; [constructor|reflexivity]|].
+  destruct (H x Hx) as (Hok & Hb & Hg). cbn [flat_map]. split; [apply items_bytes_ok_app; assumption|].
+  rewrite (bytes_of_items_app _ _ (n x)) by assumption. rewrite Hg, IH. reflexivity.
+Qed.
+
+Lemma write_parental_rating v :
+  Forall (fun it => length (DescriptorParentalRatingItem_CountryCode it) = 3%nat /\ bytes_ok (DescriptorParentalRatingItem_CountryCode it) /\
+                    byte_range (DescriptorParentalRatingItem_Rating it)) (DescriptorParentalRating_Items v) ->
+  bytes_of_items (enc_parental_rating v) = ref_parental_rating v.
+Proof.
+  intros HF. unfold enc_parental_rating, ref_parental_rating.
+  apply (bytes_of_items_flat_map _ _ (fun _ => 4) _ _ ) with (2 := HF). intros it (H3 & Hb & Hr).
+  unfold enc_parental_rating_item. rewrite wbytesn_3 by exact H3. cbn [app]. split; [iok|]. split; [bl; unfold zlen; rewrite H3; reflexivity|].
+  rewrite bytes_of_items_cons_bytes, bytes_of_items_cons_u8, Z.mod_small by (auto; iok). reflexivity.
+Qed.
+
+Lemma write_subtitling v :
+  Forall (fun it => length (DescriptorSubtitlingItem_Language it) = 3%nat /\ bytes_ok (DescriptorSubtitlingItem_Language it) /\
+                    byte_range (DescriptorSubtitlingItem_Type it)) (DescriptorSubtitling_Items v) ->
+  bytes_of_items (enc_subtitling v) = ref_subtitling v.
+Proof.
+  intros HF. unfold enc_subtitling, ref_subtitling.
+  apply (bytes_of_items_flat_map _ _ (fun _ => 8) _ _ ) with (2 := HF). intros it (H3 & Hb & Hr).
+  unfold enc_subtitling_item. rewrite wbytesn_3 by exact H3. cbn [app]. split; [iok|]. split; [bl; unfold zlen; rewrite H3; reflexivity|].
+  rewrite bytes_of_items_cons_bytes, bytes_of_items_cons_u8, bytes_of_items_cons_u16, bytes_of_items_cons_u16, Z.mod_small by (auto; iok).
+  rewrite bytes_of_items_nil, app_nil_r. reflexivity.
+Qed.
+
+Lemma write_content v :
+  Forall (fun it => 0 <= DescriptorContentItem_ContentNibbleLevel1 it < 16 /\ 0 <= DescriptorContentItem_ContentNibbleLevel2 it < 16 /\
+                    byte_range (DescriptorContentItem_UserByte it)) (DescriptorContent_Items v) ->
+  bytes_of_items (enc_content v) = ref_content v.
+Proof.
+  intros HF. unfold enc_content, ref_content.
+  apply (bytes_of_items_flat_map _ _ (fun _ => 2) _ _ ) with (2 := HF). intros it (H1 & H2 & Hr).
+  unfold enc_content_item. split; [iok|]. split; [bl; reflexivity|].
+  rewrite bytes_of_items_cons_nibbles, bytes_of_items_cons_u8, Z.mod_small by (auto; iok). reflexivity.
+Qed.
+
+(* writeDescriptor: tag, size, body — with the body lemmas above this is the reference encoding of the descriptor *)
+Theorem write_descriptor_bytes d bi : enc_descriptor_body d = Ok bi -> items_bytes_ok bi ->
+  0 <= Descriptor_Tag d < 256 -> 0 < desc_size d < 256 ->
+  res_map bytes_of_items (enc_descriptor d) = Ok ([Descriptor_Tag d; desc_size d] ++ bytes_of_items bi).
+Proof.
+  intros Ebi Hok Ht Hs. unfold enc_descriptor. destruct (emitted_nowrap d ltac:(lia)) as [_ Ec]. rewrite Ec.
+  destruct (desc_size d =? 0) eqn:E; [lia|]. rewrite Ebi. cbn [res_map]. f_equal.
+  rewrite (bytes_of_items_app _ _ 2) by (try (unfold wu8; bl; reflexivity); iok). rewrite bytes_of_two_u8, !Z.mod_small by lia. reflexivity.
+Qed.
+
+(* one descriptor, no guard: what is emitted when the size wraps *)
+Theorem descriptor_any_len d its : enc_descriptor d = Ok its -> items_bytes_ok its ->
+  exists body,
+    bytes_of_items its = [Descriptor_Tag d mod 256; calc_descriptor_length d mod 256] ++ body /\
+    calc_descriptor_length d = desc_size d mod 256 /\
+    zlen body = (if desc_size d mod 256 =? 0 then 0 else desc_size d).
+Proof.
+  intros H Hok. destruct (enc_descriptor_bytes d its H Hok) as (body & E & Hl & _).
+  destruct (emitted_wrap d) as [Ec Ee]. exists body. rewrite <- Ee. auto.
+Qed.
